@@ -6,7 +6,7 @@ the enumerated universe.
  V: TLC enumerates abstract content (header boundary values; generic and dictionary leaves of every
     data type with every length residue, with/without vendor; Grouped nesting to depth 3/4; several
     AVPs incl. a second of the same name) and computes the bytes; the harness builds each message
-    through the public API in four ways and compares dump()/bytes()/len()/Message Length.
+    through the public API in five ways (constructor list, append, extend, avps=, grow-then-pop) and compares dump()/bytes()/len()/Message Length.
  T: seeded random content over every dictionary class and every typed command class built with
     the real API; each record {content, bytes} is validated by TLC: EncMsg(content) = bytes.
     The content is derived from the arguments and the frozen reference dictionary, and -- as a
@@ -173,6 +173,14 @@ def run(rep):
                 break
             if not compare_built(rep, msg, v["bytes"], f"vector {k} variant {variant % 4}", dict(replay, variant=variant)):
                 break
+        # fifth build path: grow every container by one AVP and pop it again (same final content)
+        if m["avps"] and not any(r["replay"].get("variant") == k for r in rep.violations[-2:]):
+            try:
+                with guard(10, "build"):
+                    msg = wirex.build_msg_gs(m, byname, k)
+                compare_built(rep, msg, v["bytes"], f"vector {k} built by append-then-pop", dict(replay, variant=-1 - k))
+            except BaseException as e:
+                rep.violation(f"append-then-pop build of in-domain content raised {type(e).__name__}: {e}", dict(replay, variant=-1 - k))
         if len(rep.violations) >= 40:
             break
     rep.sample({"vector": {"content": vecs[len(vecs) // 2]["m"], "bytes": bytes(vecs[len(vecs) // 2]["bytes"]).hex()}})
@@ -283,7 +291,7 @@ def replay(rep, path):
         mm = {"h": m["h"], "avps": [tl(a) for a in m["avps"]]}
         vec, res = vectors.gen("Gen_replay", ["Wire"], f"V == <<[bytes |-> EncMsg({T(mm)})]>>", "V")
         rep.tlc("Gen_replay", res)
-        msg = wirex.build_msg(m, byname, r["variant"])
+        msg = wirex.build_msg(m, byname, r["variant"]) if r["variant"] >= 0 else wirex.build_msg_gs(m, byname, -1 - r["variant"])
         rep.case(str(r)[:80])
         compare_built(rep, msg, vec[0]["bytes"], "replayed vector", r)
     else:
